@@ -445,6 +445,9 @@ func TestVerif_C08(t *testing.T) {
 			distinct += c08LocalPref(ck, part)
 		}
 	}
+	if mine() {
+		distinct += c08LocalPref3(ck)
+	}
 	res.Count("distinct_nontrivial", distinct)
 }
 
@@ -767,7 +770,15 @@ func c08CheckLocalPref(ck *c08Checker, c c08Case) {
 	if !ok {
 		return
 	}
-	a, b := c.Resources.BGPAdvs[0].Spec, c.Resources.BGPAdvs[1].Spec
+	advs := c.Resources.BGPAdvs
+	for i := range advs {
+		for j := i + 1; j < len(advs); j++ {
+			c08CheckLocalPrefPair(ck, c, advs[i].Spec, advs[j].Spec, len(advs))
+		}
+	}
+}
+
+func c08CheckLocalPrefPair(ck *c08Checker, c c08Case, a, b metallbv1beta1.BGPAdvertisementSpec, nadvs int) {
 	if a.LocalPref == b.LocalPref {
 		return
 	}
@@ -802,11 +813,43 @@ func c08CheckLocalPref(ck *c08Checker, c c08Case) {
 		}
 	}
 	if hasV4 && *a.AggregationLength == *b.AggregationLength {
-		ck.res.Violate("conflicting-localpref-accepted family=v4", fmt.Sprintf("advertisements with local-pref %d and %d, common node and peer, equal IPv4 aggregation length %d on a pool with IPv4 addresses were accepted",
+		ck.res.Violate(fmt.Sprintf("conflicting-localpref-accepted family=v4 advertisements=%d", nadvs), fmt.Sprintf("advertisements with local-pref %d and %d, common node and peer, equal IPv4 aggregation length %d on a pool with IPv4 addresses were accepted",
 			a.LocalPref, b.LocalPref, *a.AggregationLength), c)
 	}
 	if hasV6 && *a.AggregationLengthV6 == *b.AggregationLengthV6 {
-		ck.res.Violate("conflicting-localpref-accepted family=v6", fmt.Sprintf("advertisements with local-pref %d and %d, common node and peer, equal IPv6 aggregation length %d on a pool with IPv6 addresses were accepted",
+		ck.res.Violate(fmt.Sprintf("conflicting-localpref-accepted family=v6 advertisements=%d", nadvs), fmt.Sprintf("advertisements with local-pref %d and %d, common node and peer, equal IPv6 aggregation length %d on a pool with IPv6 addresses were accepted",
 			a.LocalPref, b.LocalPref, *a.AggregationLengthV6), c)
 	}
+}
+
+// c08LocalPref3: ordered triples of advertisements on one pool (a conflict may hide behind a third one).
+func c08LocalPref3(ck *c08Checker) int64 {
+	var n int64
+	nodes := []corev1.Node{c08Node("n0", map[string]string{"rack": "0"}), c08Node("n1", map[string]string{"rack": "1"})}
+	var alphabet []metallbv1beta1.BGPAdvertisementSpec
+	for _, lp := range []uint32{100, 200} {
+		for _, ns := range [][]metav1.LabelSelector{{lsel("rack", "0")}, {lsel("rack", "1")}} {
+			for _, pl := range [][]string{nil, {"p1"}} {
+				for _, l := range [][2]int32{{32, 128}, {24, 128}} {
+					alphabet = append(alphabet, metallbv1beta1.BGPAdvertisementSpec{AggregationLength: ptr.To(l[0]), AggregationLengthV6: ptr.To(l[1]),
+						LocalPref: lp, Peers: pl, NodeSelectors: ns, IPAddressPools: []string{"p1"}})
+				}
+			}
+		}
+	}
+	for _, poolAddrs := range [][]string{{"10.0.1.0/24"}, {"10.0.1.0/24", "fc00::/64"}} {
+		for _, a := range alphabet {
+			for _, b := range alphabet {
+				for _, d := range alphabet {
+					c := c08Case{Kind: "localpref", Resources: ClusterResources{
+						Pools: []metallbv1beta1.IPAddressPool{c08Pool("p1", nil, poolAddrs...)}, Nodes: nodes,
+						BGPAdvs: []metallbv1beta1.BGPAdvertisement{
+							{ObjectMeta: metav1.ObjectMeta{Name: "adv1"}, Spec: a}, {ObjectMeta: metav1.ObjectMeta{Name: "adv2"}, Spec: b}, {ObjectMeta: metav1.ObjectMeta{Name: "adv3"}, Spec: d}}}}
+					c08CheckLocalPref(ck, c)
+					n++
+				}
+			}
+		}
+	}
+	return n
 }
